@@ -3,19 +3,19 @@ LEVEL = "fault_enumeration"
 RULE = ("fault plans enumerated on the real osmium::io::Writer (real write thread, pool, zlib, libbz2), one forked child per case: "
         "{xml, opl, pbf} x {none, gz, bz2} x fsync {no, yes} x histories of operator()(Buffer), operator()(Item), flush(), close() "
         "(A: 3 buffers, 1.3-5 KiB of output; B: A with a 512 byte internal buffer; L: output larger than the zlib/stdio buffers; "
-        "H: bzip2 input larger than one block) x output queue/pool sizes x fast|paced producer. Per configuration the plan list is: "
+        "H: 650 KB of XML, so that BZ2_bzWrite/gzwrite themselves write) x output queue/pool sizes x fast|paced producer. Per configuration the plan list is: "
         "RLIMIT_FSIZE = o for every byte offset o of the fault-free output (kernel EFBIG after a partial write); the same offsets with "
         "ENOSPC/EIO through interposed write() (plain, gzip) or fwrite() (bzip2); the n-th write/fsync/close/fwrite/fflush/fclose fails "
         "(ENOSPC and EIO) for every n up to the call count of the fault-free run; the n-th write fails with EINTR once; every write "
         "transfers at most m bytes for every m below the longest write; OPL encoder failure (invalid way node location with "
-        "locations_on_ways) at every way position. quick strides the offsets (7|61|997 + buffer boundaries +-1 + the last 12) for all but "
-        "history A/fast; thorough enumerates every offset except for history H. Oracle: either a call threw, or close() returned the "
+        "locations_on_ways) at every way position. quick strides the offsets (7|61|9973 + buffer boundaries +-1 + the last 12) for all but "
+        "history A/fast; thorough enumerates every offset for histories A and B (all offset plans) and for history L (RLIMIT_FSIZE plans with fsync; the rest strided by 13). Oracle: either a call threw, or close() returned the "
         "file's size and the file - decompressed by an own inflate/BZ2 loop that demands complete framing - decodes with the Reader to "
         "exactly the abstract objects handed over; a fired error plan followed by success is 'error-lost'; after an exception from "
         "operator()/flush() further operator() calls must throw; thread count before == after; crash/hang of the child is a violation "
         "(hang re-run alone with x10 limit). distinct_nontrivial = plans whose injector fired (injected or observed failing call > 0). "
         "Second harness (vsched): the Writer with a failing mock compressor / mock encoder under every schedule with <= 1 deviation.")
-DEADLINE = {"quick": 200, "thorough": 1400}
+DEADLINE = {"quick": 200, "thorough": 1100}
 
 
 def build(ctx):
